@@ -240,3 +240,24 @@ func InputBits(n int)        {}
 
 // Concretize forces the engine to fork over the values of v; natively the identity.
 func Concretize(v int) int { return v }
+
+// Template returns the bytes of t with every '?' replaced by a fresh symbolic byte
+// (draws named name[0], name[1], ...). The skeleton is concrete and stated in the evidence.
+func Template(name, t string) []byte {
+	cnt := 0
+	for i := 0; i < len(t); i++ {
+		if t[i] == '?' {
+			cnt++
+		}
+	}
+	hs := Bytes(name, cnt)
+	b := []byte(t)
+	k := 0
+	for i := range b {
+		if b[i] == '?' {
+			b[i] = hs[k]
+			k++
+		}
+	}
+	return b
+}
